@@ -235,7 +235,8 @@ Lemma set_transmission_spec p s :
 Proof.
   cbv zeta. unfold set_transmission, recv_snapshot. destruct p as [|b off len first last]; cbn; [discriminate|].
   destruct (if first then Some [] else incoming (sr (nd s))) as [ps|]; cbn; [|discriminate].
-  destruct last; cbn; [|discriminate]. intros _. eexists; split; reflexivity.
+  destruct last; cbn; [|discriminate]. destruct (snap_ahead _ _); cbn; [|discriminate].
+  intros _. eexists; split; reflexivity.
 Qed.
 
 (* does the log hold the snapshot's two entries (same index, term, command)? *)
@@ -816,14 +817,16 @@ Qed.
 (* ------------------------------------------------------------------------------------------ *)
 (* C04_install_keeps_acknowledged: installing a snapshot keeps what the follower holds behind it *)
 
+(* since the serializer keeps a complete file only when it is a snapshot ahead of the node, the
+   received blob has to be ahead of the node's position *)
 Lemma set_transmission_recv p s b :
-  recv_snapshot p (sr (nd s)) = Some b ->
+  recv_snapshot p (sr (nd s)) = Some b -> snap_ahead b (applied (nd s)) = true ->
   snd (set_transmission p s) = true /\ stored (sr (nd (fst (set_transmission p s)))) = Some b.
 Proof.
   unfold recv_snapshot, set_transmission. destruct p as [|b0 off len first last]; [discriminate|].
   destruct last; [|discriminate].
   destruct (if first then Some [] else incoming (sr (nd s))) as [ps|]; [|discriminate].
-  intros H. inversion H. cbn. auto.
+  intros H Hah. inversion H. subst b. rewrite Hah. cbn. auto.
 Qed.
 
 Lemma outs_ae_commit c v s : outs (ae_commit c v s) = outs s.
@@ -852,7 +855,10 @@ Proof.
   assert (V0 : self_ver (nd s0) = self_ver n) by (apply (fr_ae_pre self_ver); frs).
   assert (G0 : log (nd s0) = log n) by (apply (fr_ae_pre log); frs).
   clearbody s0. unfold ae_body_of.
-  rewrite <- L0 in Hr. destruct (set_transmission_recv p s0 _ Hr) as [Hd Hst].
+  rewrite <- L0 in Hr.
+  assert (Hah : snap_ahead (Good sn) (applied (nd s0)) = true)
+    by (cbn; rewrite A0; apply negb_true_iff, N.leb_gt; exact Ha).
+  destruct (set_transmission_recv p s0 _ Hr Hah) as [Hd Hst].
   pose proof (fr_set_transmission applied) as F1. specialize (F1 ltac:(frs) p s0).
   pose proof (fr_set_transmission self_ver) as F2. specialize (F2 ltac:(frs) p s0).
   pose proof (fr_set_transmission log) as F3. specialize (F3 ltac:(frs) p s0).
